@@ -369,9 +369,15 @@ def general_program(draw, cfg, max_steps=30, extra=(), disable=()):
         room = b.room()
         choice = d(st.sampled_from(['label', 'label', 'instr', 'instr', 'instr', 'probe', 'probe', 'fill', 'zerountil',
                                     'org', 'align', 'memzone', 'orgzone', 'mute', 'excluded', 'const', 'local', 'flabel',
-                                    'string']
+                                    'string', 'lprobe']
                                    + list(extra)))
         if choice in disable:
+            continue
+        if choice == 'lprobe':
+            if local_defined and room >= 8 and b.lay.cur['region'] is not None:
+                n = d(st.sampled_from(sorted(local_defined)))
+                b.add({'t': 'data', 'd': '.2byte', 'vals': [['lab', n]]})
+                feats.add('local-label-probe')
             continue
         if choice == 'string' and room >= 24:
             # quoted text built from words that also occur as syntax elsewhere: label names with their colon,
